@@ -8,11 +8,14 @@
   T3  the generalised derivative `Matrix_GenDer_ln` (nn and ln blocks) is covariant; `D_H` is covariant under any
       unitary that mixes only states of exactly equal energy; the complete `Omega.nn` (internal AND external terms)
       is covariant and its trace gauge invariant.
-  `_partial`: the hand-expanded formulas `Der2Omega`, `DerMorb_H`, `Der2Morb_H`, `Der3E`, `SpinOmega`, … are built
-  from the same covariant blocks but are not expanded here; they are covered by the oracle only
-  (random_gauge on/off through evaluate_k and run()).
+  T4  ONE soundness theorem for the expression syntax `CExpr` of Model/C04.lean (sums, products over the inner/outer
+      set, Hermitian conjugates, scalar and energy-dependent element-wise factors, generalised derivatives) and the
+      formula classes as structure terms: Omega, DerOmega, Der2Omega, Morb_H, Morb_Hpm, DerMorb_H, DerMorb, Der2Morb_H,
+      Der2Morb, InvMass, Der3E, Spin, DerSpin, Der2Spin (= Der2A/B/O/H), DerDcov, Der2Dcov, products.
+  Still oracle-only: SpinVelocity/SpinOmega, the `*_test`/FormulaSymmetric classes, SDCT, eigh, near-degenerate groups.
 -/
 import WB.Lemmas.C04Gauge
+import WB.Lemmas.C04Expr
 import WB.Props.C15
 import Mathlib.Algebra.Order.Floor.Ring
 import Mathlib.Data.Rat.Floor
@@ -154,6 +157,147 @@ theorem chainM_trace_gauge_invariant (m : ℕ) (U : ℕ → ℕ → K) (hU : toM
     rw [List.map_map]; apply List.map_congr_left; intro X _; exact toM_rotate m U X
   rw [this, productChain_cj _ hU]
   exact trace_cj _ _ hU
+
+
+/-! ## T4: every formula class at once — covariant expressions
+
+  `CExpr` (Model/C04.lean) is the syntax of everything the formula classes do with blocks of Hamiltonian-gauge
+  matrices: sums, products over the inner or the outer set, Hermitian conjugates, scalar factors, element-wise
+  factors depending on the two band energies (`dEig_inv`, `E_out`, `(E_m+E_n)/2`), generalised derivatives (a
+  derived form).  One soundness theorem covers them all; the classes are structure terms, and the SAME terms are run
+  by the driver against the real classes (harness corr `fx`). -/
+
+/-- **T4 (soundness).**  For a gauge change (one unitary per index set, mixing only states of exactly equal energy;
+    inner and outer unitaries independent) under which every atom block `Xbar(name,der)[r,c]` goes to `U_r† X U_c`,
+    every expression goes to `U_r† (value) U_c`. -/
+theorem formula_expr_covariant (env : BEnv K) (g : Gauge env)
+    (blk' : String → ℕ → List ℕ → Side → Side → ℕ → ℕ → K)
+    (hatom : ∀ name der cs r c, toMat (env.dim r) (env.dim c) (blk' name der cs r c)
+      = cj (g.U r) (g.U c) (toMat (env.dim r) (env.dim c) (env.blk name der cs r c)))
+    {r c : Side} (e : CExpr K r c) :
+    toMat (env.dim r) (env.dim c) (e.eval star { env with blk := blk' })
+      = (g.U r)ᴴ * toMat (env.dim r) (env.dim c) (e.eval star env) * g.U c :=
+  covariant_sound env g blk' hatom e
+
+/-- **T4 (traces).**  The trace over the inner set of every diagonal-block expression is gauge invariant; so are its
+    real and imaginary parts (`Formula_ln.trace` takes `.real`, `SpinOmega` takes `.imag`). -/
+theorem formula_expr_trace_invariant (env : BEnv K) (g : Gauge env)
+    (blk' : String → ℕ → List ℕ → Side → Side → ℕ → ℕ → K)
+    (hatom : ∀ name der cs r c, toMat (env.dim r) (env.dim c) (blk' name der cs r c)
+      = cj (g.U r) (g.U c) (toMat (env.dim r) (env.dim c) (env.blk name der cs r c)))
+    {r : Side} (e : CExpr K r r) :
+    traceM (env.dim r) (e.eval star { env with blk := blk' }) = traceM (env.dim r) (e.eval star env)
+    ∧ traceM (env.dim r) (e.eval star { env with blk := blk' }) + star (traceM (env.dim r) (e.eval star { env with blk := blk' }))
+        = traceM (env.dim r) (e.eval star env) + star (traceM (env.dim r) (e.eval star env))
+    ∧ traceM (env.dim r) (e.eval star { env with blk := blk' }) - star (traceM (env.dim r) (e.eval star { env with blk := blk' }))
+        = traceM (env.dim r) (e.eval star env) - star (traceM (env.dim r) (e.eval star env)) := by
+  have h := trace_sound env g blk' hatom e
+  exact ⟨h, by rw [h], by rw [h]⟩
+
+section classes
+variable (env : BEnv K) (g : Gauge env) (blk' : String → ℕ → List ℕ → Side → Side → ℕ → ℕ → K)
+  (hatom : ∀ name der cs r c, toMat (env.dim r) (env.dim c) (blk' name der cs r c)
+    = cj (g.U r) (g.U c) (toMat (env.dim r) (env.dim c) (env.blk name der cs r c)))
+  (I half sgn : K) (dei : K → K → K) (int ext : Bool) (oo : String) (cs : List ℕ) (r : Side)
+include hatom
+
+/-- `Omega` (internal and external terms, any `key_OO`) -/
+theorem Omega_trace_gauge_invariant :
+    traceM (env.dim r) ((omegaE I half dei int ext oo cs r).eval star { env with blk := blk' })
+      = traceM (env.dim r) ((omegaE I half dei int ext oo cs r).eval star env) := trace_sound env g blk' hatom _
+
+/-- `DerOmega` -/
+theorem DerOmega_trace_gauge_invariant :
+    traceM (env.dim r) ((derOmegaE I half dei int ext oo cs r).eval star { env with blk := blk' })
+      = traceM (env.dim r) ((derOmegaE I half dei int ext oo cs r).eval star env) := trace_sound env g blk' hatom _
+
+/-- `Morb_H` (BB, CC terms and the energy-weighted products) -/
+theorem Morb_H_trace_gauge_invariant :
+    traceM (env.dim r) ((morbHE I half dei int ext cs r).eval star { env with blk := blk' })
+      = traceM (env.dim r) ((morbHE I half dei int ext cs r).eval star env) := trace_sound env g blk' hatom _
+
+/-- `Morb_Hpm` / `morb` (`Morb_H ± (E_m+E_n)/2 · Omega`) -/
+theorem Morb_Hpm_trace_gauge_invariant :
+    traceM (env.dim r) ((morbHpmE I half sgn dei int ext oo cs r).eval star { env with blk := blk' })
+      = traceM (env.dim r) ((morbHpmE I half sgn dei int ext oo cs r).eval star env) := trace_sound env g blk' hatom _
+
+/-- `DerMorb_H` -/
+theorem DerMorb_H_trace_gauge_invariant :
+    traceM (env.dim r) ((derMorbHE I half dei int ext cs r).eval star { env with blk := blk' })
+      = traceM (env.dim r) ((derMorbHE I half dei int ext cs r).eval star env) := trace_sound env g blk' hatom _
+
+/-- `DerMorb` / `Dermorb` -/
+theorem DerMorb_trace_gauge_invariant :
+    traceM (env.dim r) ((derMorbE I half sgn dei int ext oo cs r).eval star { env with blk := blk' })
+      = traceM (env.dim r) ((derMorbE I half sgn dei int ext oo cs r).eval star env) := trace_sound env g blk' hatom _
+
+/-- `InvMass` (second derivative of the band energy) -/
+theorem InvMass_trace_gauge_invariant :
+    traceM (env.dim r) ((invMass dei cs r r).eval star { env with blk := blk' })
+      = traceM (env.dim r) ((invMass dei cs r r).eval star env) := trace_sound env g blk' hatom _
+
+/-- `Der3E` -/
+theorem Der3E_trace_gauge_invariant :
+    traceM (env.dim r) ((der3E dei cs r).eval star { env with blk := blk' })
+      = traceM (env.dim r) ((der3E dei cs r).eval star env) := trace_sound env g blk' hatom _
+
+/-- `Spin`, and any `Matrix_ln(Xbar(name, der))` (`Velocity` on the diagonal blocks) -/
+theorem Matrix_ln_trace_gauge_invariant (name : String) (der : ℕ) :
+    traceM (env.dim r) ((Xm name der cs r r).eval star { env with blk := blk' })
+      = traceM (env.dim r) ((Xm name der cs r r).eval star env) := trace_sound env g blk' hatom _
+
+/-- `DerSpin` and every `data_K.covariant(name, gender=1)` (`Matrix_GenDer_ln`) -/
+theorem GenDer_trace_gauge_invariant (name : String) :
+    traceM (env.dim r) ((covGender dei name cs r r).eval star { env with blk := blk' })
+      = traceM (env.dim r) ((covGender dei name cs r r).eval star env) := trace_sound env g blk' hatom _
+
+/-- `Der2Spin` (and `Der2A`, `Der2B`, `Der2O`, `Der2H`, which have the same body) -/
+theorem Der2X_trace_gauge_invariant (name : String) :
+    traceM (env.dim r) ((der2X dei name cs r r).eval star { env with blk := blk' })
+      = traceM (env.dim r) ((der2X dei name cs r r).eval star env) := trace_sound env g blk' hatom _
+
+/-- `Der2Omega` -/
+theorem Der2Omega_trace_gauge_invariant :
+    traceM (env.dim r) ((der2OmegaE I half dei int ext cs r).eval star { env with blk := blk' })
+      = traceM (env.dim r) ((der2OmegaE I half dei int ext cs r).eval star env) := trace_sound env g blk' hatom _
+
+/-- `Der2Morb_H` -/
+theorem Der2Morb_H_trace_gauge_invariant :
+    traceM (env.dim r) ((der2MorbHE I half dei int ext cs r).eval star { env with blk := blk' })
+      = traceM (env.dim r) ((der2MorbHE I half dei int ext cs r).eval star env) := trace_sound env g blk' hatom _
+
+/-- `Der2Morb` / `Der2morb` -/
+theorem Der2Morb_trace_gauge_invariant :
+    traceM (env.dim r) ((der2MorbE I half sgn dei int ext oo cs r).eval star { env with blk := blk' })
+      = traceM (env.dim r) ((der2MorbE I half sgn dei int ext oo cs r).eval star env) := trace_sound env g blk' hatom _
+
+/-- `DerDcov` and `Der2Dcov` (off-diagonal blocks) are covariant -/
+theorem DerDcov_Der2Dcov_covariant (c' : Side) :
+    toMat (env.dim r) (env.dim c') ((derDcov dei cs r c').eval star { env with blk := blk' })
+        = (g.U r)ᴴ * toMat (env.dim r) (env.dim c') ((derDcov dei cs r c').eval star env) * g.U c'
+    ∧ toMat (env.dim r) (env.dim c') ((der2Dcov dei cs r c').eval star { env with blk := blk' })
+        = (g.U r)ᴴ * toMat (env.dim r) (env.dim c') ((der2Dcov dei cs r c').eval star env) * g.U c' :=
+  ⟨covariant_sound env g blk' hatom _, covariant_sound env g blk' hatom _⟩
+
+/-- products of any number of diagonal-block formulas (`FormulaProduct`: `VelVelVel`, `VelMassVel`, `VelOmega`, …) -/
+theorem Product_trace_gauge_invariant (x : CExpr K r r) (rest : List (CExpr K r r)) :
+    traceM (env.dim r) ((prodE x rest).eval star { env with blk := blk' })
+      = traceM (env.dim r) ((prodE x rest).eval star env) := trace_sound env g blk' hatom _
+
+end classes
+
+/-- the gauge structure is inhabited in a non-trivial way: the identity on one set and a 90° rotation inside a
+    degenerate doublet on the other (both energies equal) -/
+example : ∃ (env : BEnv ℂ) (g : Gauge env), g.U .inn ≠ 1 := by
+  let env : BEnv ℂ := ⟨fun s => match s with | .inn => 2 | .out => 1, fun _ _ _ _ _ _ _ => 0, fun _ _ => 0⟩
+  refine ⟨env, ⟨fun s => match s with | .inn => !![0, 1; -1, 0] | .out => 1, ?_, ?_⟩, ?_⟩
+  · intro s; cases s
+    · ext i j; fin_cases i <;> fin_cases j <;> simp [Matrix.mul_apply, Fin.sum_univ_two]
+    · simp
+  · intro s i j _; rfl
+  · intro h
+    have := congrFun (congrFun h 0) 0
+    simp at this
 
 /-! ## T3: generalised derivative, D_H, Omega -/
 
